@@ -23,10 +23,10 @@ def run(ctx, rep):
                        'discipline of the nested-meta iterator, and the shape of the final decision over complete partitions.')
     rep.not_decided = 'agreement of TargetOsIterator/accept_target_os with the documented rule on every cfg expression tree (any/all/not nesting, several attributes) — a semantic property of a stack walk over an unbounded expression language.'
     rep.trusted = ['syn', 'astq evaluator']
-    a1(ctx, rep)
-    a2(ctx, rep)
-    a34(ctx, rep)
-    a5(ctx, rep)
+    rep.section(a1, ctx, rep)
+    rep.section(a2, ctx, rep)
+    rep.section(a34, ctx, rep)
+    rep.section(a5, ctx, rep)
 
 
 def a1(ctx, rep):
@@ -59,7 +59,8 @@ def a1(ctx, rep):
             continue
         f = cands[0]
         item = f['params'][1]['name']
-        calls = [c for c in f['calls'] if c.get('f') == 'target_os_accepted' and vt.show(vt.strip(c['args'][0])) == f'{item}.attrs']
+        fv = ctx.x(f)   # inlined view: the test may sit in a local helper shared by the four item visitors
+        calls = [c for c in fv['calls'] if c.get('f') in ('target_os_accepted', 'accept_target_os') and c.get('args') and vt.show(vt.strip(c['args'][0])) == f'{item}.attrs']
         rep.check(bool(calls), 'A1', f'level:{what}', f'target_os_accepted(&{item}.attrs)', f'{fn} does not consult the target-OS predicate with the {what}\'s own attributes', {'file': f['file'], 'line': f['line']})
         if fn != 'visit_file':
             parser = {'visit_item_struct': 'parse_struct', 'visit_item_enum': 'parse_enum'}.get(fn)
